@@ -233,7 +233,24 @@ def mfileLine (cl : String) : String :=
       | _ => none
     "res=ok W=" ++ ",".intercalate (ws.mergeSort (fun a b => a ≤ b))
 
+/-- `selfail <mode> P=… nosel=<db> dseed=… E=<entries>`: the target refuses `SELECT <db>`. A key living in that database
+    cannot be written where it belongs, so the run must be reported as failed; otherwise every key once, in its database. -/
+def selfailLine (cl : String) : String :=
+  let toks := cl.splitOn " "
+  let look (k : String) : String :=
+    match toks.find? (·.startsWith (k ++ "=")) with
+    | some t => (t.drop (k.length + 1)).toString
+    | none => ""
+  let ents := ((look "E").splitOn ";").filter (· ≠ "-")
+  let dbkeys := ents.filterMap fun e =>
+    match e.splitOn ":" with
+    | db :: key :: _ => some (db, key)
+    | _ => none
+  if dbkeys.any (fun p => p.1 == look "nosel") then "fail"
+  else "res=ok W=" ++ ",".intercalate ((dbkeys.map fun p => s!"{p.1}:{p.2}").mergeSort (fun a b => a ≤ b))
+
 def handle (line : String) : String :=
+  if line.startsWith "selfail " then selfailLine line else
   if line.startsWith "mfile " then mfileLine line else
   match line.splitOn " @@ " with
   | [cl] =>
